@@ -58,7 +58,9 @@ def one_run(ctx, launch, uros, msgs, rng, k):
     incl, decl = rng.uniform(-1.0, 1.0), rng.uniform(-0.4, 0.4)
     P = {"sim/enable_noise": False, "sim/mag_incl": incl, "sim/mag_decl": decl, "mrp/mag_decl": decl,
          "sim/dt_sim": float(rng.choice([1 / 800, 1 / 400])), "sim/dt_imu": float(rng.choice([1 / 400, 1 / 250, 1 / 200])),
-         "sim/dt_mag": float(rng.choice([1 / 100, 1 / 50, 1 / 20])), "logger/dt": float(rng.choice([1 / 200, 1 / 100, 0.013]))}
+         "sim/dt_mag": float(rng.choice([1 / 100, 1 / 50, 1 / 20])), "logger/dt": float(rng.choice([1 / 200, 1 / 100, 0.013])),
+         # the estimator's own rate limits are rate settings too: corrections slower than the sensors must still be applied
+         "mrp/dt_min_accel": float(rng.choice([1 / 200, 1 / 200, 1 / 100, 1 / 50])), "mrp/dt_min_mag": float(rng.choice([1 / 200, 1 / 200, 1 / 40, 1 / 15]))}
     tf = 30.0
     params = {"tf": tf, "initialize": init, "estimators": ["mrp"], "x0": np.r_[r, b], "params": P}
     case = {"x0": np.r_[r, b], "initialize": init, **P}
